@@ -77,8 +77,14 @@ def apply_item(item, sketches):
             s.update(list(item["keys"]))
 
 
+# set by the cooperative-thread context: a callback takes time, so every call is a point where other processes may run
+yield_hook = None
+
+
 def process_item(item, *sketches, side=None, **kwargs):
     item = normalize(item)
+    if yield_hook is not None:
+        yield_hook()
     if side:
         with open(side, "a") as f:
             f.write(f"{os.getpid()} {item['idx']}\n")
